@@ -3,6 +3,7 @@
 
 mod checks;
 mod client;
+mod endpoint;
 mod rec;
 mod report;
 mod rng;
